@@ -309,7 +309,7 @@ def run(ctx):
                     if fl and fl[-1]['n'] == CTX and st['p']['p'][-1] is fl[-1]:
                         writers.append((body.name, st.get('span')))
     allowed = {PI + 'add_cel', PI + 'add_layer', PI + 'add_tags', PI + 'set_tag_user_data', PI + 'add_slice', PF}
-    ctx.floor('context write sites', len(writers), 7)
+    ctx.floor('context write sites', len(writers), 5)
     for w, sp in writers:
         ctx.inst('S3', w, w in allowed, 'writes user_data_context (%s)' % ('a listed transition' if w in allowed else
                  'NOT a listed transition: a new writer of the attachment state'), sp, key=ctx.key(w, 'S3', 'writer', ''))
